@@ -402,6 +402,9 @@ func (s *jsSpeller) expr(n *JSNode) {
 		lmin, rmin := lv, lv+1
 		if n.Op == "**" {
 			lmin, rmin = pPostfix, pExp
+			if n.Kids[0].K == "preupdate" {
+				lmin = pUnary // ++a ** b: an update expression can be the base, only unary operators cannot
+			}
 		}
 		mixed := func(c *JSNode) bool {
 			return n.Op == "??" && c.K == "bin" && (c.Op == "||" || c.Op == "&&") || (n.Op == "||" || n.Op == "&&") && c.K == "bin" && c.Op == "??"
@@ -578,6 +581,9 @@ func (s *jsSpeller) expr(n *JSNode) {
 		}
 	case "yield":
 		s.t("yield")
+		if n.Kids[0] == nil {
+			break
+		}
 		if n.Op == "*" {
 			s.tNoLT("*")
 			s.operand(n.Kids[0], pAssign, true)
